@@ -37,7 +37,7 @@ func TestC19(t *testing.T) {
 				st.ForeignAnomaly(owner, c)
 				return ""
 			}
-			labels := []string{fmt.Sprintf("via_yaml:%v", viaYAML)}
+			labels := []string{fmt.Sprintf("via_yaml:%v", viaYAML), fmt.Sprintf("prior-runs-on-the-prepared-workflow:%d", len(c.PriorDocs))}
 			nontrivial := invalid
 			for _, f := range c.Main.Input {
 				if f.Default != nil || f.Type == "obj" {
